@@ -72,7 +72,27 @@ PROGRAMS = [
 JUNK = "@`\\"
 
 
-def run_injection(report, findings, rp):
+LOCATE_REPLAY = '''
+from pycparser.c_parser import CParser, ParseError
+from pycparser.c_lexer import CLexer
+text = {text!r}
+where = {where!r}
+class LocLexer(CLexer):
+    def __init__(self, error_func, *a, **k):
+        self.reported = []
+        def ef(msg, line, column):
+            self.reported.append((line, column)); return error_func(msg, line, column)
+        super().__init__(ef, *a, **k)
+p = CParser(lexer=LocLexer)
+RESULT = {{"mislocated": False}}
+try:
+    p.parse(text, "f.c")
+except ParseError as e:
+    RESULT = {{"mislocated": bool(p.clex.reported) and not str(e).startswith(where), "msg": str(e), "reported": p.clex.reported}}
+'''
+
+
+def run_injection(report, findings, rp, pid="C18", locate=False):
     """Every position of every program gets one symbolic character from JUNK (characters that are part of
     no C token outside literals); the real lexer (sre model) feeds the real parser.  Whatever look-ahead,
     speculative parsing or error handling does, the result must be a ParseError."""
@@ -85,6 +105,19 @@ def run_injection(report, findings, rp):
     Lmod = symlexer.load()
     P = symparser.load()
     junk = IntervalSet([(ord(c), ord(c)) for c in JUNK])
+
+    class LocLexer(Lmod.CLexer):
+        """the real lexer; remembers whether it called the error callback"""
+
+        def __init__(self, error_func, *a, **k):
+            self.reported = []
+
+            def ef(msg, line, column):
+                self.reported.append((line, column))
+                return error_func(msg, line, column)
+
+            super().__init__(ef, *a, **k)
+
     cands = {}
     total = 0
     for prog in PROGRAMS:
@@ -111,18 +144,28 @@ def run_injection(report, findings, rp):
                 eng.solver.add(base.length == len(chars))
                 return eng
 
-            def once(base=base):
+            line = prog[:pos].count("\n") + 1
+            col = pos - (prog.rfind("\n", 0, pos) + 1) + 1
+
+            def once(base=base, where=f"f.c:{line}:{col}: "):
                 eng = E.cur()
+                parser = P.CParser(lexer=LocLexer)
                 try:
-                    P.CParser(lexer=Lmod.CLexer).parse(SymText(base), "f.c")
-                except P.ParseError:
-                    return {"cls": "rejected", "witness": {"injection-rejected": True}}
+                    parser.parse(SymText(base), "f.c")
+                except P.ParseError as e:
+                    if locate and parser.clex.reported and not str(e).startswith(where):
+                        # C11: once the lexer has reported the character, the error that reaches the caller is located there
+                        # (the parser may legitimately fail earlier, before the lexer gets to the character)
+                        return {"cls": "MISLOCATED", "viol": {"sig": "junk-character-mislocated", "what": f"the lexer reported the stray character at {where[:-2]} but the error that escapes says {str(e)[:60]!r}", "text": base.witness(eng.model()), "where": where}}
+                    return {"cls": "rejected" + ("-after-lexer-report" if parser.clex.reported else ""), "witness": {"injection-rejected": True}}
                 except (E.HarnessError, E.Abort):
                     raise
                 except RecursionError:
                     raise
                 except Exception as e:
                     return {"cls": "other-exception(C06's subject)"}
+                if locate:
+                    return {"cls": "accepted(C18's subject)"}
                 m = eng.model()
                 return {"cls": "ACCEPTED", "viol": {"sig": "non-token-character-accepted", "what": "input containing a character that is part of no C token was accepted", "text": base.witness(m)}}
 
@@ -141,16 +184,21 @@ def run_injection(report, findings, rp):
                 report.witnesses.setdefault(k, w)
             for v in res.violations:
                 cands.setdefault(v["sig"], []).append(v)
-    report.extra["injection"] = {"programs": PROGRAMS, "characters": JUNK, "positions": "every character position", "paths": total}
+    report.extra["injection" + ("-located" if locate else "")] = {"programs": PROGRAMS, "characters": JUNK, "positions": "every character position", "paths": total}
     for sig, vs in sorted(cands.items()):
         vs.sort(key=lambda v: len(v["text"]))
         good = None
         for v in vs[:4]:
             report.replayed += 1
             r = rp.ask(op="parse", text=v["text"], filename="f.c")
-            if r.get("outcome") == "ast" and any(c in v["text"] for c in JUNK):
+            if not locate and r.get("outcome") == "ast" and any(c in v["text"] for c in JUNK):
                 good = v
                 break
+            if locate:
+                rr = rp.ask(op="exec", code=LOCATE_REPLAY.format(text=v["text"], where=v["where"]))
+                if isinstance(rr, dict) and rr.get("mislocated"):
+                    good = v
+                    break
         if good is None:
             report.unreproduced.append({"sig": sig, "text": vs[0]["text"]})
             continue
@@ -159,7 +207,10 @@ def run_injection(report, findings, rp):
         if kf:
             report.known_hits[kf.get("id", sig)] = kf["what"]
             continue
-        body = (f"from pycparser.c_parser import CParser, ParseError\ntext = {good['text']!r}\n"
-                "try:\n    CParser().parse(text, 'f.c')\nexcept ParseError as e:\n    print('rejected (ok):', e); sys.exit(0)\n"
-                "print('VIOLATION reproduced: accepted', repr(text)); sys.exit(1)\n")
-        report.violations.append({"sig": sig, "what": what, "replay": checklib.write_replay("C18", what, body)})
+        if locate:
+            body = LOCATE_REPLAY.format(text=good["text"], where=good["where"]) + "print(RESULT)\nsys.exit(1 if RESULT['mislocated'] else 0)\n"
+        else:
+            body = (f"from pycparser.c_parser import CParser, ParseError\ntext = {good['text']!r}\n"
+                    "try:\n    CParser().parse(text, 'f.c')\nexcept ParseError as e:\n    print('rejected (ok):', e); sys.exit(0)\n"
+                    "print('VIOLATION reproduced: accepted', repr(text)); sys.exit(1)\n")
+        report.violations.append({"sig": sig, "what": what, "replay": checklib.write_replay(pid, what, body)})
